@@ -119,6 +119,7 @@ func runC08(c *Ctx) {
 	c.c08CompileEach()
 	c.patternLoopsComplete("E7")
 	c.c08PatternsAreTheCallersOwn()
+	c.c08FilterLeavesOutOnlyWhatMatches()
 	s := &c08State{c: c, eff: c.computeEffects(), E: map[*ssa.Function][]int{}}
 	var members []*ssa.Function
 	for _, f := range c.srcFuncs(fsPkgRel) {
@@ -902,4 +903,53 @@ func (c *Ctx) c08PatternsAreTheCallersOwn() {
 		c.check(bad == "", "E14", fname(f)+"/the-callers-own-patterns", c.pos(f.Pos()), "what is handed on where the caller's patterns may be handed on is the caller's patterns, on every path",
 			"the patterns handed on at "+bad+" are the caller's on one path and something else on another: an empty set of patterns is replaced by a default, so a call with no pattern — which names nothing — leaves out the entries the default names (directories whose name starts with a dot), while every other operation reports them")
 	}
+}
+
+// c08FilterLeavesOutOnlyWhatMatches (E15): "…and does process every entry none of whose path components contains a match".
+// Every listing, walk, copy, archive and removal filters the names of a directory through ExcludeFiles. In its loop an item
+// is left out of the result only where IsPathExcluded answered true for it: a name passed over on other grounds (it is
+// 'empty' — reflection.IsEmpty trims white space, and a name made of blanks is a legal name) disappears from every
+// operation at once, whatever the patterns.
+func (c *Ctx) c08FilterLeavesOutOnlyWhatMatches() {
+	c.rule("E15", "in ExcludeFiles an item of the listing is left out of the result only on the true side of IsPathExcluded(item, …): no other test decides what a listing holds", 1)
+	f := c.fnOpt(fsPkgRel, "ExcludeFiles")
+	if f == nil {
+		return
+	}
+	c.FuncsSeen[fname(f)] = true
+	var app, ex *ssa.Call
+	allInstrs(f, func(in ssa.Instruction) {
+		cl, ok := in.(*ssa.Call)
+		if !ok || !inLoop(cl) {
+			return
+		}
+		if calleeFull(&cl.Call) == "builtin.append" {
+			app = cl
+		}
+		if strings.HasSuffix(calleeFull(&cl.Call), "filesystem.IsPathExcluded") {
+			ex = cl
+		}
+	})
+	key := fname(f) + "/left-out-only-when-excluded"
+	if app == nil || ex == nil {
+		c.violate("E15", key, c.pos(f.Pos()), "ExcludeFiles no longer has a loop that appends the items IsPathExcluded does not match")
+		return
+	}
+	hdr := loopHeaderOf(app)
+	if hdr == nil {
+		c.undecided("E15", key, c.ipos(app), "the loop of ExcludeFiles was not recognised")
+		return
+	}
+	first := hdr.Instrs[0]
+	prune := func(b *ssa.BasicBlock, k int) bool {
+		ifi, ok := b.Instrs[len(b.Instrs)-1].(*ssa.If)
+		if !ok {
+			return false
+		}
+		v, ts := boolTest(ifi)
+		return v == ssa.Value(ex) && k == ts // the item matched: leaving it out is the point
+	}
+	skip := pathPruned(f, first, func(i ssa.Instruction) bool { return i == ssa.Instruction(app) }, func(i ssa.Instruction) bool { return i == first }, prune)
+	c.check(skip == nil, "E15", key, c.ipos(ex), "the only way round the append is the true side of IsPathExcluded",
+		"an item can be left out of the result without IsPathExcluded having matched it (a way round the append at "+c.ipos(app)+" that does not pass the true side of the test): an entry whose name is passed over on other grounds — a name made of white space, which reflection.IsEmpty takes for empty — vanishes from every listing, walk, copy and archive, and Remove reports success with it still there")
 }
